@@ -2,8 +2,8 @@ import VaxisModel.Model.DynList
 import VaxisModel.Lemmas.DynList
 
 /-! Findings in vxfw/list `Dynamic` (replayed on the real code from /verif/corpus/C19/F119*.ops).
-All six are repaired in /repo; the model carries each repair as a Bool of `Facts`
-(cursorGuard, insertStops, clampTop, gapAbove, revealAbove), so the witnesses run the model of the
+All seven are repaired in /repo; the model carries each repair as a Bool of `Facts`
+(cursorGuard, insertStops, clampTop, gapAbove, revealAbove, uintIndex; F119g is `ensureScrollUnfixed`), so the witnesses run the model of the
 code BEFORE the repair (`false`) and after it (`true`).
 
 * F119  (fixed, /repo 5b2dab9): cursor gutter indexes the children with a wrapped `cursor - top`.
@@ -20,9 +20,10 @@ open VaxisModel.Model.DynList VaxisModel.Lemmas.DynList
 
 def panics {α} (r : Except Panic α) : Bool := match r with | .error _ => true | .ok _ => false
 
-/-- F119: DrawCursor, three items, wheel down, two draws — without the guard the second panics. -/
+/-- F119: DrawCursor, three items, wheel down, two draws — without the guard (and with the index
+    compared as an `int`, as the code did then) the second panics. -/
 theorem gutter_panics_unguarded :
-    panics (run ⟨false, true, true, true, true⟩ ⟨0, true⟩ [3, 1, 2] init [.wheelDown, .draw 4 1, .draw 4 1]) = true := by decide
+    panics (run ⟨false, true, true, true, true, false⟩ ⟨0, true⟩ [3, 1, 2] init [.wheelDown, .draw 4 1, .draw 4 1]) = true := by decide
 
 /-- … and with the guard it does not. -/
 theorem gutter_ok_guarded :
@@ -35,7 +36,7 @@ def f119bOps : List HOp :=
 
 /-- F119b: without the walk back to an existing top widget the last draw panics … -/
 theorem shrunk_scrollup_panics_unfixed :
-    panics (runH ⟨true, true, false, true, true⟩ ⟨0, false⟩ [1, 1, 1, 1] init f119bOps) = true := by decide
+    panics (runH ⟨true, true, false, true, true, true⟩ ⟨0, false⟩ [1, 1, 1, 1] init f119bOps) = true := by decide
 
 /-- … with it the list shows its only item at row 0 (top = 0, offset 0). -/
 theorem shrunk_scrollup_ok_fixed :
@@ -46,8 +47,8 @@ theorem shrunk_scrollup_ok_fixed :
 /-- F119c: gap 1, two items of height 1, viewport 1: after moving to the second item and scrolling
     back up by 2, the code before the repair drew the two children at rows 0 and 1 — no gap. -/
 theorem gap_ignored_on_scroll_up_unfixed :
-    (match run ⟨true, true, true, false, true⟩ ⟨1, false⟩ [1, 1] init [.next, .draw 4 1, .pending (-2)] with
-     | .ok s => (match draw ⟨true, true, true, false, true⟩ ⟨1, false⟩ [1, 1] s 4 1 with
+    (match run ⟨true, true, true, false, true, true⟩ ⟨1, false⟩ [1, 1] init [.next, .draw 4 1, .pending (-2)] with
+     | .ok s => (match draw ⟨true, true, true, false, true, true⟩ ⟨1, false⟩ [1, 1] s 4 1 with
         | .ok (_, cs) => cs.map (fun c => (c.idx, c.row, c.height)) == [(0, 0, 1), (1, 1, 1)]
         | .error _ => false)
      | .error _ => false) = true := by decide
@@ -63,16 +64,16 @@ theorem gap_kept_on_scroll_up_fixed :
 /-- The state of the previous witness before its last draw. -/
 def s0 : St := { cursor := 1, top := 1, offset := 0, pending := -2, wantsCursor := false }
 
-theorem s0_reached : run ⟨true, true, true, false, true⟩ ⟨1, false⟩ [1, 1] init [.next, .draw 4 1, .pending (-2)] = .ok s0 := by rfl
+theorem s0_reached : run ⟨true, true, true, false, true, true⟩ ⟨1, false⟩ [1, 1] init [.next, .draw 4 1, .pending (-2)] = .ok s0 := by rfl
 
-theorem s0_draw : draw ⟨true, true, true, false, true⟩ ⟨1, false⟩ [1, 1] s0 4 1
+theorem s0_draw : draw ⟨true, true, true, false, true, true⟩ ⟨1, false⟩ [1, 1] s0 4 1
     = .ok ({ s0 with top := 0, pending := 0 }, [⟨0, 0, 1⟩, ⟨1, 1, 1⟩]) := by rfl
 
 /-- Hence the layout statement for all gaps (`Props.C19.dyn_layout`) was false of the code before
     repair F119c. -/
 theorem dyn_layout_fails_unfixed :
     ¬ ∀ (cfg : Cfg) (hs : List Nat) (s : St) (W H : Nat) (s' : St) (cs : List Child), s.top < U →
-      draw ⟨true, true, true, false, true⟩ cfg hs s W H = .ok (s', cs) → Contig cfg.gap cs ∧ Heights hs cs := by
+      draw ⟨true, true, true, false, true, true⟩ cfg hs s W H = .ok (s', cs) → Contig cfg.gap cs ∧ Heights hs cs := by
   intro h
   have := (h ⟨1, false⟩ [1, 1] s0 4 1 _ _ (by decide) s0_draw).1
   have h2 : (1 : Int) = 0 + ((1 : Nat) : Int) + 1 := this.1.2
@@ -85,8 +86,8 @@ theorem dyn_layout_fails_unfixed :
 def f119fOps : List Op := [.setCursor 3, .draw 4 2, .pending (-2), .draw 4 5, .setCursor 2]
 
 theorem insert_top_off_by_one_hides_selection :
-    (match run ⟨true, false, true, true, false⟩ ⟨0, false⟩ [1, 1, 5, 2] init f119fOps with
-     | .ok s => (match draw ⟨true, false, true, true, false⟩ ⟨0, false⟩ [1, 1, 5, 2] s 4 5 with
+    (match run ⟨true, false, true, true, false, true⟩ ⟨0, false⟩ [1, 1, 5, 2] init f119fOps with
+     | .ok s => (match draw ⟨true, false, true, true, false, true⟩ ⟨0, false⟩ [1, 1, 5, 2] s 4 5 with
         | .ok (_, cs) => cs.map (fun c => (c.idx, c.row, c.height)) == [(1, -3, 1), (2, -2, 5), (3, 3, 2)]
         | .error _ => false)
      | .error _ => false) = true := by decide
@@ -106,8 +107,8 @@ def f119dOps : List HOp := [.op (.setCursor 3), .op (.draw 4 2), .items [1, 1, 1
 /-- Before the repair: item 3 at row −7 and the selected item 4 at row −5; nothing covers row 0, the
     state is never re-anchored and the selection stays invisible. -/
 theorem stale_offset_hides_selection_unfixed :
-    (match runH ⟨true, true, true, true, false⟩ ⟨0, false⟩ [1, 1, 1, 9, 1] init f119dOps with
-     | .ok (hs, s1) => (match draw ⟨true, true, true, true, false⟩ ⟨0, false⟩ hs s1 4 2 with
+    (match runH ⟨true, true, true, true, false, true⟩ ⟨0, false⟩ [1, 1, 1, 9, 1] init f119dOps with
+     | .ok (hs, s1) => (match draw ⟨true, true, true, true, false, true⟩ ⟨0, false⟩ hs s1 4 2 with
         | .ok (s2, cs) => cs.map (fun c => (c.idx, c.row, c.height)) == [(3, -7, 2), (4, -5, 1)]
             && s2.top == 3 && s2.offset == 7
         | .error _ => false)
@@ -135,5 +136,18 @@ theorem pending_scroll_dropped_fixed :
     (match draw Facts.fixed ⟨0, false⟩ [1] (setCursor (wheelDown init).1 0) 4 1 with
      | .ok (_, cs) => cs.map (fun c => (c.idx, c.row, c.height)) == [(0, 0, 1)]
      | .error _ => false) = true := by decide
+
+/-- F119h (fixed, /repo 81f1850): the empty list, `SetCursor(uint(len(items)-1))` = 2^64−1, `Draw`:
+    before the repair the wants-cursor block computed `int(idx)` = −1 `< len` = 0 and indexed
+    `s.Children[2^64−1]` — a panic … -/
+theorem huge_cursor_panics_unfixed :
+    panics (run ⟨true, true, true, true, true, false⟩ ⟨0, false⟩ [] init [.setCursor (2 ^ 64 - 1), .draw 4 2]) = true := by
+  decide
+
+/-- … with the index compared as a `uint` it does not (also with two items and the cursor gutter). -/
+theorem huge_cursor_ok_fixed :
+    panics (run Facts.fixed ⟨0, false⟩ [] init [.setCursor (2 ^ 64 - 1), .draw 4 2]) = false ∧
+    panics (run Facts.fixed ⟨0, true⟩ [1, 1] init [.setCursor (2 ^ 63), .draw 4 2, .next, .draw 4 2]) = false := by
+  decide
 
 end VaxisModel.Witness.F119
